@@ -5,9 +5,12 @@ package main
 
 import (
 	"encoding/hex"
+	"encoding/json"
 	"fmt"
 	"strconv"
+	"strings"
 	"time"
+	"unicode/utf8"
 
 	"github.com/btcsuite/btcutil/base58"
 	tmsecp "github.com/cometbft/cometbft/crypto/secp256k1"
@@ -74,7 +77,7 @@ type CoinSpec struct {
 
 type MsgSpec struct {
 	T      string            `json:"t"`
-	F      map[string]string `json:"f,omitempty"`
+	F      FMap              `json:"f,omitempty"`
 	Key    string            `json:"key,omitempty"`   // record key (hex)
 	Value  string            `json:"value,omitempty"` // record value (hex)
 	Doc    *DocSpec          `json:"doc,omitempty"`
@@ -388,3 +391,37 @@ func (bc *BuildCtx) Build(s *MsgSpec) sdk.Msg {
 }
 
 var _ = tmsecp.PubKeySize
+
+// FMap is the field table of a message spec. Values are arbitrary byte strings (hostile messages carry invalid UTF-8);
+// encoding/json would silently replace such bytes, and a replayed script would not be the script that ran, so values that
+// are not valid UTF-8 travel as "~hex~<hex>".
+type FMap map[string]string
+
+func (f FMap) MarshalJSON() ([]byte, error) {
+	out := make(map[string]string, len(f))
+	for k, v := range f {
+		if !utf8.ValidString(v) || strings.HasPrefix(v, "~hex~") {
+			v = "~hex~" + hex.EncodeToString([]byte(v))
+		}
+		out[k] = v
+	}
+	return json.Marshal(out)
+}
+
+func (f *FMap) UnmarshalJSON(b []byte) error {
+	var in map[string]string
+	if err := json.Unmarshal(b, &in); err != nil {
+		return err
+	}
+	out := make(FMap, len(in))
+	for k, v := range in {
+		if strings.HasPrefix(v, "~hex~") {
+			if raw, err := hex.DecodeString(v[5:]); err == nil {
+				v = string(raw)
+			}
+		}
+		out[k] = v
+	}
+	*f = out
+	return nil
+}
